@@ -301,6 +301,12 @@ class Spec:
             v = S.lift(v)
             return S.V(S.BOOL, _cu("isinstance_" + name, v.s, S.BOOL)(v.t))
 
+        def Rep(s_, n_):
+            """s * n for a symbolic count, as the engine encodes it (uninterpreted repetition)."""
+            from .calls import ufunc as _cu
+            s_, n_ = S.lift(s_), S.lift(n_)
+            return S.V(s_.s, _cu("StrRep_" + s_.s.name, s_.s, S.INT, s_.s)(s_.t, n_.t))
+
         def alias(expr_text):
             """Sort marker for a block input that is bound to a container's method, e.g. params=dict(a=alias("r.append"))."""
             return ("alias", expr_text)
@@ -389,7 +395,7 @@ class Spec:
 
         ns = dict(cls=cls, ghost=ghost, assumed=assumed, verified=verified, target=target, loop=loop,
                   fold_sum=fold_sum, fold_all=fold_all, fold_cat=fold_cat, use_rev=use_rev, fold_unit=fold_unit, rev_hints=rev_hints, attr=attr, seq_lemma=seq_lemma, lemma=lemma,
-                  exceptions=exceptions, attr_sort=attr_sort, alias=alias, class_tests=class_tests, is_a=is_a, instance_of=instance_of, exc_attr=exc_attr, StartsWith=StartsWith, EndsWith=EndsWith, Card=Card, always_truthy=always_truthy, const=const, assume_note=assume_note,
+                  exceptions=exceptions, attr_sort=attr_sort, Rep=Rep, alias=alias, class_tests=class_tests, is_a=is_a, instance_of=instance_of, exc_attr=exc_attr, StartsWith=StartsWith, EndsWith=EndsWith, Card=Card, always_truthy=always_truthy, const=const, assume_note=assume_note,
                   undecided=undecided, pure=pure, ufunc=ufunc, forall=forall, exists=exists,
                   extra_check=extra_check, census=census, include=include, rx=re.compile, SPEC=sp)
         for k in ("INT BOOL STR BYTES NONE ANY Seq Tup Opt SetS MapS Opaque Enum Obj V If And Or Not Implies "
